@@ -502,7 +502,11 @@ class Sym:
                     a = z3.ToReal(a)
                 if _is_int_term(b):
                     b = z3.ToReal(b)
-                return uninterpreted('mul', 2)(a, b)
+                m = uninterpreted('mul', 2)(a, b)
+                # sound sign facts about a real product
+                axiom(z3.And(z3.Implies(z3.And(a >= 0, b >= 0), m >= 0), z3.Implies(z3.And(a <= 0, b <= 0), m >= 0),
+                             z3.Implies(z3.And(a >= 0, b <= 0), m <= 0), z3.Implies(z3.And(a <= 0, b >= 0), m <= 0)))
+                return m
         return a * b
 
     def __mul__(self, o):
